@@ -1,7 +1,20 @@
-import json,jsonschema,glob,sys
-jsonschema.validate(json.load(open('/verif/MANIFEST.json')), json.load(open('/root/.vp/MANIFEST.schema.json')))
+import json,jsonschema,glob,sys,os
+m=json.load(open('/verif/MANIFEST.json'))
+jsonschema.validate(m, json.load(open('/root/.vp/MANIFEST.schema.json')))
 s=json.load(open('/root/.vp/EVIDENCE.schema.json'))
+cats={c['property_id']:c['level_claimed']['category'] for c in m['checks']}
+bad=0
 for f in sorted(glob.glob('/verif/evidence/*.json')):
-    jsonschema.validate(json.load(open(f)), s)
+    e=json.load(open(f))
+    jsonschema.validate(e, s)
+    pid=os.path.basename(f)[:-5]
+    if pid in cats and e['level']!=cats[pid]:
+        print('LEVEL MISMATCH', f, e['level'], cats[pid]); bad=1
+    if e['coverage'].get('distinct_nontrivial',0)<2 or not e['coverage'].get('samples'):
+        print('WEAK EVIDENCE', f); bad=1
     print('ok', f)
-print('manifest ok')
+for pid in cats:
+    if not os.path.exists('/verif/evidence/%s.json'%pid):
+        print('MISSING EVIDENCE', pid); bad=1
+print('manifest ok' if not bad else 'PROBLEMS')
+sys.exit(bad)
